@@ -91,7 +91,48 @@ def tree_added_arm_scenario(seed, i):
                     "n_jobs": 1}, "ops": ops}
 
 
+def knn_pair_scenario(seed, i):
+    """two KNearest bandits with long, different histories that are asked the same query rows in opposite order (in the
+    interleaved mode scenario i runs next to scenario i + 1): nothing one of them looked up may reach the other"""
+    import random
+    first = i % 30 == 13
+    rq = random.Random("%s/C04pairQ/%s" % (seed, i // 30))
+    q1 = [[float(rq.randint(0, 9)), float(rq.randint(0, 9))] for _ in range(12)]
+    q2 = [[float(rq.randint(0, 9)), float(rq.randint(0, 9))] for _ in range(12)]
+    rng = random.Random("%s/C04pair/%s" % (seed, i))
+    n = 2100
+    arms = [1, 2, 3]
+    fit = {"op": "fit", "d": [rng.choice(arms) for _ in range(n)], "r": [rng.choice([0, 1, 2, 5]) for _ in range(n)],
+           "c": [[float(rng.randint(0, 9)), float(rng.randint(0, 9))] for _ in range(n)]}
+    a, b = (q1, q2) if first else (q2, q1)
+    ops = [fit, {"op": "pexp", "c": a}, {"op": "pexp", "c": b}, {"op": "pred", "c": a}]
+    return {"cfg": {"lp": {"k": "ucb", "alpha": 1.0}, "np": {"k": "knn", "kk": 5, "metric": "euclidean"}, "arms": arms,
+                    "seed": rng.randint(0, 10 ** 6), "binz": None, "n_jobs": 1}, "ops": ops}
+
+
+def lints_thin_arm_scenario(seed, i):
+    """LinTS with ten features of magnitude 1e4 and an arm with fewer rows than features: whatever numpy makes of the
+    ill-conditioned covariance (values or a LinAlgError), it is the same in every process"""
+    import random
+    rng = random.Random("%s/C04lints/%s" % (seed, i))
+    arms = [1, 2, 3]
+    d = 10
+    n = 40
+    dec = [arms[j % 2] for j in range(n)] + [3, 3]
+    ctx = [[1e4 * rng.randint(1, 5) + rng.randint(0, 9) for _ in range(d)] for _ in dec]
+    rew = [rng.choice([0, 1, 2]) for _ in dec]
+    q = [[1e4 * rng.randint(1, 5) for _ in range(d)] for _ in range(3)]
+    ops = [{"op": "fit", "d": dec, "r": rew, "c": ctx}, {"op": "pexp", "c": q},
+           {"op": "pfit", "d": [3, 1], "r": [1, 0], "c": [ctx[0], ctx[1]]}, {"op": "pexp", "c": q}, {"op": "pred", "c": q}]
+    return {"cfg": {"lp": {"k": "lints", "alpha": 1.0, "lam": rng.choice([1.0, 1e-8])}, "np": None, "arms": arms,
+                    "seed": rng.randint(0, 10 ** 6), "binz": None, "n_jobs": 1}, "ops": ops}
+
+
 def gen(seed, i):
+    if i % 30 in (13, 14):
+        return knn_pair_scenario(seed, i)
+    if i % 30 == 20:
+        return lints_thin_arm_scenario(seed, i)
     if i % 6 == 3:
         return tree_added_arm_scenario(seed, i)
     if i % 6 == 5:
